@@ -20,7 +20,7 @@ FUNCTIONS_ENCODED = ['pgpy.pgp.PGPUID.hashdata', 'pgpy.packet.packets.UserID.par
                      'specs.rfc4880_sig.hash_input (injectivity lemma)']
 STUBS = ['EdDSAPub.verify -> (octets == octets handed to the signing primitive) and (signature integers == produced token): '
          'existential unforgeability taken as exact', 'keys with symbolic packet bodies: PGPKey subclasses (hashdata/is_primary/subkeys/fingerprint as attributes)']
-OUTSIDE = ['the primitives themselves (RSA/DSA/ECDSA/EdDSA in cryptography/OpenSSL) and DER encodings',
+OUTSIDE = ['the primitives themselves (DSA/ECDSA/EdDSA in cryptography/OpenSSL; RSA only through the 14 concrete mutants of O1.6) and DER encodings',
            'creation time and other time-valued subpackets are concrete', 'RSA/DSA/ECDSA key material classes: the verdict mapping is exercised through EdDSA keys; '
            'the per-algorithm verify() wrappers (InvalidSignature -> False) are four three-line functions not executed symbolically']
 ASSUMPTIONS = ['ideal signature functionality (see STUBS)']
@@ -420,6 +420,87 @@ def _uid_packets(i, j, ti, tj):
     return (not ok) or (i == j and ti == tj)
 
 
+def _attr_packet(tails):
+    """user attribute packet (tag 17) with one image subpacket per element of `tails` (JPEG magic + tail)"""
+    body = b''
+    for t in tails:
+        sp = b'\x01' + b'\x10\x00\x01\x01' + bytes(12) + JPEG + bytes(t)
+        body += bytes([len(sp)]) + sp
+    return bytes([0xD1, len(body)]) + body
+
+
+@ob('O1.1-attr2', 'certifications over a user attribute with SEVERAL subpackets cover all of them: truthy only if every subpacket of the presented attribute is the signed one',
+    'attribute packets with two image subpackets, parsed from octets; tails of 0..2 symbolic octets in the first and the second subpacket, signed and presented; same key',
+    cond_timeout={'q': 280, 't': 900}, partitions=[['len(a1) == len(b1)'], ['len(a1) != len(b1)']])
+def sound_attr_subpackets(a0: bytes, a1: bytes, b0: bytes, b1: bytes) -> bool:
+    """
+    pre: len(a0) <= 1 and len(b0) <= 1
+    pre: len(a1) <= 2 and len(b1) <= 2
+    post: _
+    """
+    key = FakePrimary(b'k1')
+    s0 = mk_sig(SignatureType.Positive_Cert)
+    ua, ub = PGPUID(), PGPUID()
+    try:
+        ua._uid = _Packet(bytearray(_attr_packet([a0, a1])))
+        ub._uid = _Packet(bytearray(_attr_packet([b0, b1])))
+    except Exception:
+        return True
+    ua._parent = key
+    ub._parent = key
+    Oracle.reset()
+    Oracle.signed = bytes(s0.hashdata(ua))
+    Oracle.token = bytes(s0.__sig__)
+    try:
+        ok = truthy(PUB.verify(ub, s0))
+    except PGPError:
+        ok = False
+    return (not ok) or (bytes(a0) == bytes(b0) and bytes(a1) == bytes(b1))
+
+
+RSAKEY = PGPKey.new(PubKeyAlgorithm.RSAEncryptOrSign, 2048, created=T0)
+RSAKEY.add_uid(PGPUID.new('r'), usage={KeyFlags.Sign, KeyFlags.Certify}, hashes=[HashAlgorithm.SHA256], created=T0)
+RSASIG = RSAKEY.sign(b'doc', created=T0)
+
+
+def _rsa_mutant(mi, again):
+    """the genuine RSA signature over b'doc' with its integer replaced by mutant mi, re-parsed from octets, verified with the real RSA primitive"""
+    from pgpy.packet.types import MPI
+    s_ = int(RSASIG._signature.signature.md_mod_n)
+    n = int(RSAKEY._key.keymaterial.n)
+    klen = (n.bit_length() + 7) // 8
+    mutants = (s_, s_ + 256 ** klen, s_ + 0x102 * 256 ** klen, s_ ^ 1, s_ + 256 ** (klen + 3), (s_ + 1) % n, s_ ^ (1 << (8 * klen - 9)))
+    sig = PGPSignature.from_blob(bytes(RSASIG))
+    sig._signature.signature.md_mod_n = MPI(mutants[mi])
+    sig._signature.update_hlen()
+    sig = PGPSignature.from_blob(bytes(sig))
+    if int(sig._signature.signature.md_mod_n) != mutants[mi]:
+        return False
+    doc = b'doc' if not again else b'doc2'
+    try:
+        ok = truthy(RSAKEY.pubkey.verify(doc, sig))
+    except Exception:
+        ok = False
+    return ok == (mi == 0 and not again)
+
+
+@ob('O1.6', 'signature integers, real RSA primitive: the genuine integer verifies for the signed document only; the same integer with octets added above the modulus width, '
+            'with a flipped bit, or incremented never verifies', 'mutation by symbolic index from {none, + 256^k, + 0x102 * 256^k, xor 1, + 256^(k+3), + 1 mod n, xor a high bit} (k = modulus length) x {signed document, another document}; RSA-2048, SHA-256; native per path',
+    cond_timeout={'q': 200, 't': 600})
+def rsa_integer_mutation(mi: int, other_doc: bool) -> bool:
+    """
+    pre: 0 <= mi < 7
+    post: _
+    """
+    m = 0
+    for k in range(7):
+        if mi == k:
+            m = k
+    od = True if other_doc else False
+    with native():
+        return _rsa_mutant(m, od)
+
+
 @ob('O1.1-uidpkt', 'certifications over user id PACKETS given by their octets: truthy only if the presented packet body is octet for octet the signed one '
                    '(bodies that are not UTF-8, or that differ only in encoding / normalisation form, are different user ids)',
     'signed / presented body by symbolic index from 11 (ASCII, Latin-1 vs UTF-8 of the same text, invalid UTF-8 vs its charmap rendering re-encoded, NFC vs NFD, case, trailing blank, empty); types from {0x10,0x13,0x30}^2; native per path',
@@ -445,7 +526,7 @@ def sound_uid_packets(i: int, j: int, ti: int, tj: int) -> bool:
         return _uid_packets(a, b, c, d)
 
 
-SANITY = ['algorithm_octet_mutation(0, 8)', 'algorithm_octet_mutation(0, 3)', 'algorithm_octet_mutation(0, 0)', 'algorithm_octet_mutation(0, 99)', 'algorithm_octet_mutation(1, 1)', 'algorithm_octet_mutation(1, 22)', 'sound_uid_packets(1, 2, 0, 0)', 'sound_uid_packets(3, 4, 1, 1)', 'sound_uid_packets(8, 9, 0, 0)', 'sound_uid_packets(1, 1, 2, 2)'] + ['sound_doc(0, 0, b"ab", b"ab", 8, 8, "u", "u", 5, 5)', 'sound_doc(0, 0, b"ab", b"ac", 8, 8, "u", "u", 5, 5)',
+SANITY = ['rsa_integer_mutation(%d, %s)' % (m, o) for m in range(7) for o in (True, False)] + ['sound_attr_subpackets(b"", b"x", b"", b"y")', 'sound_attr_subpackets(b"a", b"xy", b"a", b"xy")', 'sound_attr_subpackets(b"", b"", b"", b"z")'] + ['algorithm_octet_mutation(0, 8)', 'algorithm_octet_mutation(0, 3)', 'algorithm_octet_mutation(0, 0)', 'algorithm_octet_mutation(0, 99)', 'algorithm_octet_mutation(1, 1)', 'algorithm_octet_mutation(1, 22)', 'sound_uid_packets(1, 2, 0, 0)', 'sound_uid_packets(3, 4, 1, 1)', 'sound_uid_packets(8, 9, 0, 0)', 'sound_uid_packets(1, 1, 2, 2)'] + ['sound_doc(0, 0, b"ab", b"ab", 8, 8, "u", "u", 5, 5)', 'sound_doc(0, 0, b"ab", b"ac", 8, 8, "u", "u", 5, 5)',
           'sound_doc(1, 1, b"a\\n", b"a\\r\\n", 8, 8, "", "", 1, 1)', 'sound_doc(0, 1, b"a", b"a", 8, 8, "", "", 1, 1)',
           'sound_doc(0, 0, b"a", b"a", 2, 8, "", "", 1, 1)', 'sound_doc(0, 0, b"a", b"a", 8, 8, "x", "y", 1, 1)', 'sound_doc(0, 0, b"a", b"a", 8, 8, "", "", 1, 2)',
           'sound_msg(0, b"ab", b"ab")', 'sound_msg(0, b"ab", b"a")', 'sound_msg(1, b"a\\n", b"a\\r\\n")',
